@@ -9,6 +9,8 @@ import (
 	"sort"
 	"strconv"
 	"strings"
+	"sync"
+	"sync/atomic"
 	"time"
 )
 
@@ -38,6 +40,21 @@ func (b *vBackend) Send(msg *Message) error {
 }
 func (b *vBackend) GetAddress() string { return b.addr }
 func (b *vBackend) Close()             { b.closed++ }
+
+type vLockedBackend struct {
+	addr string
+	mu   *sync.Mutex
+	sink *[]string
+}
+
+func (b *vLockedBackend) Send(msg *Message) error {
+	b.mu.Lock()
+	*b.sink = append(*b.sink, b.addr)
+	b.mu.Unlock()
+	return nil
+}
+func (b *vLockedBackend) GetAddress() string { return b.addr }
+func (b *vLockedBackend) Close()             {}
 
 // listener recording add/remove notifications, applied like Proxy.receiveAndProcessMessage does
 type vChangeListener struct {
@@ -163,6 +180,70 @@ func init() {
 		return "to " + strings.Fields(vRRSink[before])[0]
 	})
 	vReg("rr state", func(a []string) string { return rrState() })
+	// rr race <millis> <seed>: dispatches racing with membership changes made from another goroutine.
+	// Every dispatch must reach a backend that was registered at some moment of the run, never panic,
+	// and -- three backends always stay registered -- never be dropped.
+	vReg("rr race", func(a []string) string {
+		ms, _ := strconv.Atoi(a[0])
+		rr := NewRoundRobinBackend()
+		var sink []string
+		var mu sync.Mutex
+		mk := func(addr string) *vLockedBackend { return &vLockedBackend{addr: addr, mu: &mu, sink: &sink} }
+		for j := 0; j < 3; j++ {
+			rr.AddBackend(mk(fmt.Sprintf("127.0.1.%d:5080", j+1)))
+		}
+		msg, _ := NewRequest("OPTIONS", "sip:probe@example.com", "SIP/2.0")
+		var stop int32
+		res := make(chan string, 4)
+		go func() {
+			extra := []string{"127.0.1.8:5080", "127.0.1.9:5080"}
+			for atomic.LoadInt32(&stop) == 0 {
+				for _, e := range extra {
+					rr.AddBackend(mk(e))
+				}
+				runtime.Gosched()
+				for _, e := range extra {
+					rr.RemoveBackend(e)
+				}
+				runtime.Gosched()
+			}
+			res <- "ok"
+		}()
+		go func() {
+			out := "ok"
+			defer func() {
+				if r := recover(); r != nil {
+					out = "panic-" + strings.ReplaceAll(fmt.Sprintf("%v", r), " ", "_")
+				}
+				res <- out
+			}()
+			n := 0
+			for atomic.LoadInt32(&stop) == 0 {
+				mu.Lock()
+				before := len(sink)
+				mu.Unlock()
+				err := rr.Send(msg)
+				mu.Lock()
+				after := len(sink)
+				mu.Unlock()
+				if err != nil || after != before+1 {
+					out = fmt.Sprintf("dropped-or-duplicated-after-%d-dispatches", n)
+					return
+				}
+				n++
+			}
+			if n < 100 {
+				out = "too-few-dispatches"
+			}
+		}()
+		time.Sleep(time.Duration(ms) * time.Millisecond)
+		atomic.StoreInt32(&stop, 1)
+		r1, r2 := <-res, <-res
+		if r1 != "ok" {
+			return r1
+		}
+		return r2
+	})
 
 	// ---- static routes ----
 	var pcr *PreConfigRoute
@@ -233,6 +314,42 @@ func init() {
 	vReg("res fail", func(a []string) string {
 		base := runtime.NumGoroutine()
 		vRes.addressResolved(unhx(a[0]), nil, fmt.Errorf("scripted resolution failure"))
+		waitGoroutines(base)
+		return rrState()
+	})
+	// res2 new <proto> <tag> <host:port>…: the rotation is built by the REAL CreateRoundRobinBackend from
+	// host-name backends (registered with the package's global resolver); resolutions are then scripted
+	// through addressResolved of that global resolver. Host names are made unique by <tag>.
+	vReg("res2 new", func(a []string) string {
+		if vRR != nil {
+			vRR.Close()
+		}
+		var addrs []string
+		for _, hp := range a[2:] {
+			addrs = append(addrs, a[0]+"://"+unhx(hp))
+		}
+		rr, err := CreateRoundRobinBackend("127.0.0.1:0", addrs, func(conn net.Conn) {})
+		if err != nil {
+			return "err"
+		}
+		vRR = rr
+		vRRIndex = &vChangeListener{index: map[string]bool{}}
+		vRR.AddBackendChangeListener(vRRIndex)
+		return "ok"
+	})
+	vReg("res2 ok", func(a []string) string {
+		addrs := make([]string, 0)
+		for _, x := range a[1:] {
+			addrs = append(addrs, unhx(x))
+		}
+		base := runtime.NumGoroutine()
+		dynamicHostResolver.addressResolved(unhx(a[0]), addrs, nil)
+		waitGoroutines(base)
+		return rrState()
+	})
+	vReg("res2 fail", func(a []string) string {
+		base := runtime.NumGoroutine()
+		dynamicHostResolver.addressResolved(unhx(a[0]), nil, fmt.Errorf("scripted resolution failure"))
 		waitGoroutines(base)
 		return rrState()
 	})
